@@ -429,8 +429,29 @@ pub fn run(run: &mut Run) {
         }
         run.cov("exhaustive", serde_json::json!(ex && res3.exhausted_bound));
     }
+    // third pass, from a node in its third life: keys logged and stored by a clean shutdown, one more key, a kill
+    // (the next start discards the log while the stored keys map is the older one); then every history of 5 (6)
+    // steps over new keys / snapshot / clean shutdown / kill, without merging
+    let m4 = C16 { letters: vec![L::CreateDb(0), L::NewKey(0), L::Snapshot(0), L::ShutdownRestart, L::KillRestart], crash_states: Default::default(), crash_distinct: Default::default() };
+    {
+        let names = m4.letters();
+        let idx = |n: &str| names.iter().position(|l| l == n).unwrap();
+        let prefix = vec![idx("CreateDb(0)"), idx("NewKey(0)"), idx("Snapshot(0)"), idx("ShutdownRestart"), idx("NewKey(0)"), idx("KillRestart")];
+        let sub = vec![idx("NewKey(0)"), idx("Snapshot(0)"), idx("ShutdownRestart"), idx("KillRestart")];
+        let depth = if quick { 5 } else { 6 };
+        let res4 = crate::seq::explore_all_histories(&m4, &prefix, &sub, depth, crate::util::workers(), std::time::Duration::from_secs(if quick { 40 } else { 600 }));
+        run.cov("third_pass", serde_json::json!({"root": ["CreateDb(0)", "NewKey(0)", "Snapshot(0)", "ShutdownRestart", "NewKey(0)", "KillRestart"], "alphabet_size": sub.len(), "depth": depth, "histories": res4.histories, "complete": res4.exhausted_bound, "merging": false}));
+        let ex = run.coverage.get("exhaustive").and_then(|v| v.as_bool()).unwrap_or(false);
+        let keep: Vec<(String, serde_json::Value)> = ["depth_bound", "alphabet_size", "depth_completed", "frontier_sizes"].iter().filter_map(|k| run.coverage.get(*k).map(|v| (k.to_string(), v.clone()))).collect();
+        let cfg4 = SeqConfig { max_depth: depth, workers: 0, max_states: 0, budget: std::time::Duration::from_secs(0) };
+        super::seq_report(run, &m4, &res4, &cfg4);
+        for (k, v) in keep {
+            run.cov(&k, v);
+        }
+        run.cov("exhaustive", serde_json::json!(ex && res4.exhausted_bound));
+    }
     key_snapshot_races(run, quick);
-    let cs = m.crash_states.load(std::sync::atomic::Ordering::Relaxed) + m3.crash_states.load(std::sync::atomic::Ordering::Relaxed);
+    let cs = m.crash_states.load(std::sync::atomic::Ordering::Relaxed) + m3.crash_states.load(std::sync::atomic::Ordering::Relaxed) + m4.crash_states.load(std::sync::atomic::Ordering::Relaxed);
     run.cov("evaluations", serde_json::json!(cs + res.transitions));
     run.cov("crash_states_restarted", serde_json::json!(cs));
     run.cov("distinct_nontrivial", serde_json::json!(m.crash_distinct.lock().unwrap().len()));
